@@ -1486,7 +1486,10 @@ pub fn run_script_body(s: &Script, cfg: Cfg) {
     // library makes fails once; the process may end there (abort on OOM is the
     // standard reaction) or the library may cope, in which case everything is
     // judged as usual
-    arena::st().fail_in = if (s.layout_seed >> 28) & 7 == 0 && !exec::inproc() && std::env::var_os("CX_NO_OOM").is_none() { 1 + (s.layout_seed >> 32) % 96 } else { 0 };
+    // (not for C09: how many allocations a hash table makes can depend on the
+    // addresses it hashes, so "the k-th allocation" is not the same call under
+    // two heap layouts)
+    arena::st().fail_in = if (s.layout_seed >> 28) & 7 == 0 && !exec::inproc() && !digest && std::env::var_os("CX_NO_OOM").is_none() { 1 + (s.layout_seed >> 32) % 96 } else { 0 };
     for (i, op) in s.ops.iter().enumerate() {
         shared().op = i as u32;
         arena::st().ctx_op = i as u32;
